@@ -7,9 +7,17 @@ use std::io::{self, Read, Write};
 struct Dribble<'a> {
     data: &'a [u8],
     step: usize,
+    /// 0: never; otherwise every `eintr`-th call (counting from `calls`) reports a transient `Interrupted` first, as a blocking
+    /// source hit by a signal does: the caller is expected to retry (Read::read_exact does)
+    eintr: usize,
+    calls: usize,
 }
 impl Read for Dribble<'_> {
     fn read(&mut self, buf: &mut [u8]) -> io::Result<usize> {
+        self.calls += 1;
+        if self.eintr != 0 && self.calls % self.eintr == 1 % self.eintr {
+            return Err(io::ErrorKind::Interrupted.into());
+        }
         let n = buf.len().min(self.step).min(self.data.len());
         buf[..n].copy_from_slice(&self.data[..n]);
         self.data = &self.data[n..];
@@ -50,8 +58,8 @@ pub fn vi_read(a: &Args) -> Args {
     let mut cur = &d[..];
     let whole = VarInt::read(&mut cur).map(|v| (u32::from(v), cur.len()));
     // the same bytes through readers that return them in pieces: same value, same number of bytes consumed
-    for step in [1usize, 2, 3] {
-        let mut r = Dribble { data: &d[..], step };
+    for (step, eintr) in [(1usize, 0usize), (2, 0), (3, 0), (4, 2), (1, 2), (4, 3), (2, 1 + 2)] {
+        let mut r = Dribble { data: &d[..], step, eintr, calls: 0 };
         let piecewise = VarInt::read(&mut r).map(|v| (u32::from(v), r.data.len()));
         match (&whole, &piecewise) {
             (Ok(x), Ok(y)) => assert_eq!(x, y, "VarInt::read depends on how the reader splits the bytes"),
